@@ -74,7 +74,7 @@ def is_scalar(t):
 def build_value(v):
     if isinstance(v, dict):
         if "$r" in v:
-            return faults.Raw(v["$r"])
+            return faults.RawU(v["$r"]) if v.get("u") else faults.Raw(v["$r"])
         if "$set" in v:
             return set(build_value(x) for x in v["$set"])
         if "$tuple" in v:
@@ -147,6 +147,9 @@ class PidPool:
         return self.n - 1
 
 
+UNHASHABLE_ITEMS = False     # set by a property whose reference knows what an unhashable element of a set means
+
+
 def gen_value(rng, t, pool, positions, path=()):
     """Generate a well-formed input for t made of Raw payloads; records (path, leaf-type, pid) in positions."""
     k = t[0]
@@ -189,6 +192,11 @@ def gen_value(rng, t, pool, positions, path=()):
         items = [gen_value(rng, t[1], pool, positions, path + (i,)) for i in range(n)]
         if k in ("set", "fset") and rng.random() < 0.6:
             return {"$set": items}
+        if k in ("set", "fset") and UNHASHABLE_ITEMS:
+            # given as a list, some of the elements not hashable as they are (they still convert like the others)
+            for it in items:
+                if isinstance(it, dict) and "$r" in it and rng.random() < 0.4:
+                    it["u"] = 1
         if k == "tup" and rng.random() < 0.5:
             return {"$tuple": items}
         return items
